@@ -51,7 +51,22 @@ func c01Gen(seed int64, idx int) c01Case {
 	return c
 }
 
+// the last c01WS(tier) cases run over the shipped websocket transport
+func c01WS(tier string) int { return tierN(tier, 8, 64) }
+
 func c01Run(tier string, seed int64, idx int) *core.Result {
+	if base := tierN(tier, 96, 3000); idx >= base {
+		if j := idx - base - c01WS(tier); j >= 0 {
+			k := []int{1, 2, 4, 8}[j%4]
+			res := &core.Result{Verdict: core.Held, Sample: map[string]any{"family": "reply-then-connection-end", "callers": k}, Sig: fmt.Sprintf("rte/%d", idx)}
+			c01ReplyThenEnd(tier, seed, idx, k, res)
+			return res
+		}
+		wc := wsGen(idx-base, false)
+		res := &core.Result{Verdict: core.Held, Sample: wc, Sig: fmt.Sprintf("%+v/%d", wc, idx)}
+		wsWorkload(seed, idx, wc, "unary", res)
+		return res
+	}
 	c := c01Gen(seed, idx)
 	r := rng(seed, idx, "c01run")
 	res := &core.Result{Verdict: core.Held, Sample: c}
@@ -300,13 +315,13 @@ func init() {
 	core.Register(&core.Prop{
 		ID:    "C01",
 		Level: "exploration",
-		Rule: "cases = (topology direct|proxy|fanin+demux) x callers {1,2,3,8,16,64} released together on ONE connection x link capacity {0,8} x {serialising, by-reference} x GOMAXPROCS {1,4,16} x handler-gating {0,50,100}% with a releaser letting parked handlers go in PRNG order; payload sizes from {0,1,17,1Ki,4Ki,64Ki} random bytes both ways; every 8th direct case with >=16 callers additionally cancels 1..3 callers while they are blocked behind the fully gated server and starts 1..4 late callers before releasing the handlers. A case is non-trivial when, measured on the wire tap, at least one reply overtook an older unanswered request; distinct = distinct case parameter tuples.",
-		Plan:  func(tier string, seed int64) int { return tierN(tier, 96, 3000) },
+		Rule: "cases = (topology direct|proxy|fanin+demux) x callers {1,2,3,8,16,64} released together on ONE connection x link capacity {0,8} x {serialising, by-reference} x GOMAXPROCS {1,4,16} x handler-gating {0,50,100}% with a releaser letting parked handlers go in PRNG order; payload sizes from {0,1,17,1Ki,4Ki,64Ki} random bytes both ways; every 8th direct case with >=16 callers additionally cancels 1..3 callers while they are blocked behind the fully gated server and starts 1..4 late callers before releasing the handlers. Plus (quick 8, thorough 64) cases over the shipped websocket transport on loopback sockets whose writes stall half-way: {2,8,16,64} concurrent callers, payloads 0..64 KiB around the 4 KiB frame chunk, the first 4 handlers held until 4 requests have arrived; wall-clock bound 30 s = inconclusive, only wrong requests/replies are violations. Plus (quick 12, thorough 96) reply-then-connection-end cases: {1,2,4,8} callers are held inside their transport write until their replies have been read and dispatched by the client and the connection has then ended (EOF or read failure); each must still get its reply. A case is non-trivial when, measured on the wire tap, at least one reply overtook an older unanswered request; distinct = distinct case parameter tuples.",
+		Plan:  func(tier string, seed int64) int { return tierN(tier, 96, 3000) + c01WS(tier) + tierN(tier, 12, 96) },
 		Run:   c01Run,
 		MaxStats: []string{"max_concurrent_callers"},
 		Assumptions: []string{"transport is reliable and ordered (harness link)", "proxy topology limited to 12 concurrent calls (below the proxy's 16-slot buffer, see C16)"},
 		RequiredStats: func(string) []string {
-			return []string{"replies_overtaking_older_request", "callers_cancelled_while_blocked", "hook:srv.unary.handoff", "hook:mux.beforeDispatch", "hook:srv.writer.beforeWrite"}
+			return []string{"replies_overtaking_older_request", "callers_cancelled_while_blocked", "hook:srv.unary.handoff", "hook:mux.beforeDispatch", "hook:srv.writer.beforeWrite", "ws_unary_calls_checked", "replies_kept_across_connection_end"}
 		},
 	})
 }
